@@ -67,7 +67,7 @@ def r2(ctx: Ctx) -> None:
         else:
             ok = False
             found = "matching is not conditioned on session.with_order_execution"
-        ctx.check(ok, f, b.accept.node, f"{b.phase} {b.kind}: matching round iff execution switch, on the order's own market", f"if session.with_order_execution: {market_of(b.accept)}._execution()", found, guard="text", guard_text=path_text(b.path))
+        ctx.check(ok, f, b.accept.node, f"{b.phase} {b.kind}: matching round iff execution switch, on the order's own market", f"if session.with_order_execution: {market_of(b.accept)}._execution()", found, **({"guard": "text", "guard_text": path_text(b.path)} if g is None else {}))
         # the switch is read when the decision is taken: a hook run for an earlier order of the same
         # submission (trading halt) may have cleared it since
         import ast as _ast
@@ -97,7 +97,10 @@ def r2(ctx: Ctx) -> None:
                     if e.kind == "store" and e.attr == "_is_running" and e.base == el and key(strip_ver(e.value)) == "session.with_order_execution" and not bp.conds:
                         copy.append(l)
         ok = len(copy) == 1 and len(step) == 1 and p.events.index(copy[0]) < p.events.index(step[0]) and key(strip_ver(copy[0].iter)) in ("self.simulator.markets", "markets")
-        ctx.check(ok, g, g.node, "every market's running flag is set from the session before the steps", "for market in markets: market._is_running = session.with_order_execution", f"{len(copy)} copy loop(s)", guard="text", guard_text=__import__("ast").unparse(g.node))
+        # every market gets *a* value before the steps, unconditionally, but not literally the session's switch (a method of the session decides, per market): another statement of the same rule
+        other_value = [l for l in lps if l not in step and l.paths and all(any(e.kind == "store" and e.attr == "_is_running" for e in bp.events) for bp in l.paths if bp.exit[0] != "raise")]
+        ctx.check(ok, g, g.node, "every market's running flag is set from the session before the steps", "for market in markets: market._is_running = session.with_order_execution", f"{len(copy)} copy loop(s)",
+                  **({"guard": "text", "guard_text": __import__("ast").unparse(g.node)} if other_value and not copy else {}))
 
 
 def _self_attr_of(t: Term) -> Optional[str]:
